@@ -224,18 +224,31 @@ class Driver:
         if not self.bin.exists():
             raise Infra("driver binary missing; run setup")
 
-    def batch(self, lines, timeout=1800):
-        if not lines:
-            return []
+    def _run(self, lines, timeout):
         data = "\n".join(lines) + "\n"
         p = subprocess.run([str(self.bin)], input=data, stdout=subprocess.PIPE, stderr=subprocess.PIPE,
                            text=True, timeout=timeout)
-        if p.returncode != 0:
-            raise Infra("driver failed: " + p.stderr[-2000:])
         out = p.stdout.splitlines()
-        if len(out) != len(lines):
+        return p.returncode, out, p.stderr
+
+    def batch(self, lines, timeout=1800):
+        """one reply per request; a request on which the driver process dies (stack overflow on a huge
+        value, …) is answered `err CRASH` and the rest of the batch is still evaluated"""
+        if not lines:
+            return []
+        rc, out, err = self._run(lines, timeout)
+        if rc == 0 and len(out) == len(lines):
+            return out
+        if rc == 0:
             raise Infra("driver returned %d lines for %d requests" % (len(out), len(lines)))
-        return out
+        if len(lines) == 1:
+            return ["err CRASH"]
+        # the replies before the crash are valid; isolate the crashing request and continue after it
+        good = out[:len(out)] if len(out) < len(lines) else []
+        k = len(good)
+        rc1, out1, _ = self._run(lines[k:k + 1], timeout)
+        first = out1[:1] if (rc1 == 0 and len(out1) == 1) else ["err CRASH"]
+        return good + first + self.batch(lines[k + 1:], timeout)
 
 
 class Interactive:
